@@ -771,7 +771,7 @@ class IdFamily:
             doc = shuffle_keys(base_doc, rng)
             text = yaml.safe_dump(doc, sort_keys=False, default_flow_style=rng.choice([None, False, True]), width=rng.choice([40, 80, 1000]))
             if i == 0:
-                text = "# a comment\n" + text.replace("\n", "\n\n", 1)
+                text = "# a comment\n\n" + text      # (a blank line INSIDE the document could fall into a folded multi-line scalar)
             assert yaml.safe_load(text) == base_doc
             self.add(jobs, "cos%d" % i, text, "cosmetic", inspect=True)
         # defaults written out / run_space moved under pipeline: the same plan
@@ -1226,18 +1226,88 @@ def to_tuple(e):
     return tuple(to_tuple(x) if isinstance(x, list) and x and isinstance(x[0], str) and x[0] in ("var", "const", "un", "bin", "call") else x for x in e)
 
 
+STATEFUL_HEADER = """From Coq Require Import List ZArith Bool.
+From SV Require Import Model.Stateful Gen.OrchestratorGen.
+Import ListNotations. Open Scope Z_scope.
+Definition cases : list scase := [
+%s
+].
+Eval vm_compute in sbad fresh_nodes_per_run cases 0%%nat.
+"""
+
+
+def stateful_correspondence(ck, rng, n):
+    """Model/Stateful.v against the implementation: pipelines of stateful / stateless / failing user operations run several
+    times on ONE Pipeline object (what a launch does); the outputs of every run are compared inside Coq with
+    `runs fresh_nodes_per_run`.  Direct oracle on top: every run equals a standalone run on a fresh Pipeline."""
+    from semantiva.context_processors import ContextType
+    from semantiva.examples.test_utils import FloatDataType
+    from semantiva.pipeline import Payload, Pipeline
+    from harness.lib import components as C
+    lits, infos = [], []
+    for t in range(n):
+        codes, cfg = [], []
+        for _ in range(rng.randint(1, 4)):
+            r = rng.random()
+            if r < 0.45:
+                codes.append("NAcc")
+                cfg.append({"processor": C.VerifAccumulateOperation})
+            elif r < 0.8:
+                k = rng.randint(1, 3)
+                codes.append("(NTimes %d)" % k)
+                cfg.append({"processor": "FloatMultiplyOperation", "parameters": {"factor": float(k)}})
+            else:
+                b = rng.choice([2, 4, 6])
+                codes.append("(NFail %d)" % b)
+                cfg.append({"processor": C.VerifFailOnOperation, "parameters": {"bad": float(b)}})
+        ds = [rng.choice([1, 2, 3, 4, 6]) for _ in range(rng.randint(2, 5))]
+
+        def outs(pipe_factory):
+            got = []
+            for d in ds:
+                try:
+                    out = pipe_factory().process(Payload(FloatDataType(float(d)), ContextType({})))
+                    v = out.data.data
+                    got.append(int(v) if float(v) == int(v) else v)
+                except Exception:  # noqa
+                    got.append(None)
+            return got
+        one = Pipeline([dict(c) for c in cfg])
+        reused = outs(lambda: one)
+        alone = outs(lambda: Pipeline([dict(c) for c in cfg]))
+        if any(isinstance(v, float) for v in reused + alone):
+            continue
+        rep = {"kind": "stateful", "nodes": codes, "inputs": ds, "reused_pipeline_outputs": reused, "standalone_outputs": alone}
+        if reused != alone:
+            ck.fail_input("C09:runs-on-one-pipeline-object-differ-from-standalone-runs:stateful-component",
+                          "runs %s on one Pipeline object return %s; standalone runs return %s (a component keeps state on its instance)"
+                          % (ds, reused, alone), rep)
+        lits.append("(%s, %s, %s)" % (cq_list(codes), cq_list(ds, cq_Z), cq_list(["None" if v is None else "(Some %s)" % cq_Z(v) for v in reused])))
+        infos.append(rep)
+    per, errs = core.mismatches("C09_stateful", [STATEFUL_HEADER % ";\n".join(lits)], timeout=300)
+    for k, rc, out in errs:
+        ck.corr_problem("stateful correspondence shard did not evaluate (rc=%s)" % rc, out)
+    bad = per[0][0] if per and per[0] is not None else []
+    for b in bad[:4]:
+        ck.corr_problem("Model/Stateful.v and the implementation disagree on the runs of one Pipeline object", json.dumps(infos[b]), case=infos[b])
+    ck.cov["evaluations"] = ck.cov.get("evaluations", 0) + 2 * sum(len(i["inputs"]) for i in infos)
+    return {"cases": len(lits), "disagreements": len(bad), "with_stateful_node": sum(1 for i in infos if "NAcc" in i["nodes"])}
+
+
 def run(ck):
     rng = random.Random(ck.seed * 104729 + 9)
     thorough = ck.tier == "thorough"
-    gen = run_all(["launch", "run_space", "pipeline"])
-    ck.build_models(["Model/PipelineLib.v", "Gen/PipelineGen.v", "Gen/RunSpaceGen.v", "Model/Launch.v", "Gen/LaunchGen.v"])
-    proved = ck.prove(gen_results={"launch": gen["launch"]})
+    gen = run_all(["launch", "run_space", "pipeline", "orchestrator"])
+    ck.build_models(["Model/PipelineLib.v", "Gen/PipelineGen.v", "Gen/RunSpaceGen.v", "Model/Launch.v", "Gen/LaunchGen.v",
+                     "Model/Stateful.v", "Gen/OrchestratorGen.v"])
+    proved = ck.prove(gen_results={"launch": gen["launch"], "orchestrator": gen["orchestrator"]})
     if thorough and proved:
         ck.coqchk()
     facts = read_facts()
     ck.notes["generated_facts"] = facts
     pg.setup_impl()
     ck.notes["inprocess_launches"] = inprocess_launches(ck)
+    ck.notes["stateful_runs"] = stateful_correspondence(ck, rng, 60 if thorough else 16)
     root = tempfile.mkdtemp(prefix="c09_", dir=os.environ.get("TMPDIR", "/tmp"))
     try:
         _run(ck, rng, thorough, facts, root)
